@@ -1,5 +1,6 @@
 import Tulz.Model.RingBufferStore
 import Tulz.Drv.Util
+import Tulz.Drv.IterDrv
 /- line protocol for the RingBuffer model: `rb <op> <args…>` -> `<result> | d:<net live-value change>` -/
 namespace Tulz.Drv.Rb
 open Tulz
@@ -60,6 +61,14 @@ def step (s : State) (args : List String) : State × String :=
     match id.toNat? >>= s.find with
     | some (_, b) => (s, s!"{b.pos},{b.size},{b.cap}")
     | none => (s, "-")
+  | "it" :: id :: start :: c :: cmds =>     -- iterator script over buffer `id` (RandomAccessIndexIterator model)
+    match id.toNat? >>= s.find with
+    | some (_, b) =>
+      match IterDrv.run b.get start (c :: cmds) with
+      | some (.ok o) => (s, o ++ " | d:")
+      | some (.error e) => (s, "!" ++ e.toString)
+      | none => (s, "bad-op")
+    | none => (s, "!" ++ Err.assertion.toString)
   | [op, id, i] =>
     -- aliasing pushes `rb.push_back(rb[i])` etc.: the argument is the current value of the buffer's own element i
     if op == "pbs" || op == "pfs" || op == "ebs" || op == "efs" then
